@@ -20,7 +20,7 @@ def generate(rng, tier):
     for i in range(n):
         r = rng.fork(i)
         P = Prog()
-        g = canon_geonum(P, r, False, r.chance(0.3)); h = canon_geonum(P, r, False, False)
+        g = canon_geonum(P, r, False, r.chance(0.3)); h = canon_geonum(P, r, False, r.chance(0.3))   # helper operands with blade history too (grade logic on large blade counts)
         a = canon_angle(P, r, r.chance(0.3))
         preds = []
         # affine
@@ -46,7 +46,7 @@ def generate(rng, tier):
         df = P.add('GSub', 0, g, h)
         preds += [('mag_is_quotient', [P.add('TFreq', g, h, iv), df, iv, ['#', 1]]), ('mag_is_quotient', [P.add('TWavenum', g, h, iv), df, iv, ['#', 1]])]
         # ml
-        b = canon_geonum(P, r, True, False)
+        b = canon_geonum(P, r, True, r.chance(0.2))
         preds.append(('forward_ref', [g, h, b, P.add('TForward', g, h, b), P.add('AAdd', 0, P.add('GAngle', g), P.add('GAngle', h))]))
         for kind in range(4):
             preds.append(('activate_ref', [g, ['#', kind], P.add('TActivate', kind, g)]))
